@@ -149,6 +149,21 @@ def run_case(seed, root, params=None):
             proj.features.add('find')
     else:
         proj = G.RegenGen(rng, backend).generate()
+    if rng.random() < 0.15:
+        # one source of one link step named by its absolute path (C13 only
+        # configures: where the object of such a source goes is C05's
+        # subject, its *name* must not depend on the process)
+        import re
+        cands = [st for st in proj.scripts['build.bfg']
+                 if st.kind in ('executable', 'library', 'static_library',
+                                'shared_library') and
+                 re.search(r"files=\['[^']+\.c'", st.text)]
+        if cands:
+            st = rng.choice(cands)
+            st.text = re.sub(r"files=\['([^']+\.c)'",
+                             r"files=[env.srcdir.string() + '/\1'",
+                             st.text, count=1)
+            proj.features.add('absolute_source')
     cfg = {'clock_mode': rng.choice(['strict', 'coarse']), 'bufsize': 4096,
            'seed': seed, 'msvc': rng.random() < 0.25}
     w = W.World(root)
